@@ -140,12 +140,21 @@ impl Runtime {
         self.cont = State::Stopped;
         if line.is_empty() {
             if self.listing.remove(line.number()).is_some() {
-                self.dirty = true;
+                self.listing_changed();
             }
         } else {
             self.listing.insert(line);
-            self.dirty = true;
+            self.listing_changed();
         }
+    }
+
+    /// The stored program changed. What is left of an earlier run (continuation
+    /// point, FOR and GOSUB frames, user functions) refers to code that is gone.
+    fn listing_changed(&mut self) {
+        self.dirty = true;
+        self.cont = State::Stopped;
+        self.stack.clear();
+        self.functions.clear();
     }
 
     fn enter_inkey(&mut self, mut string: &str) {
@@ -619,7 +628,7 @@ impl Runtime {
         let from = LineNumber::try_from(from)?;
         let to = LineNumber::try_from(to)?;
         if self.listing.remove_range(from..=to) {
-            self.dirty = true;
+            self.listing_changed();
             self.state = State::Stopped;
         }
         Ok(self.r#end())
@@ -833,7 +842,7 @@ impl Runtime {
         let old_start = u16::try_from(self.stack.pop()?)?;
         let new_start = u16::try_from(self.stack.pop()?)?;
         self.listing.renum(new_start, old_start, step)?;
-        self.dirty = true;
+        self.listing_changed();
         self.state = State::Stopped;
         Ok(self.r#end())
     }
